@@ -254,8 +254,8 @@ package klog
 
 // edur(e): the duration an entry contributes to the total: range -> end - start (shifted times are offsets on the
 // neighbouring days), duration -> its minutes, open range -> 0.
-//@ spec edur(e Entry) int = ite(typeis(e.value, *timeRange), off(e.value.(*timeRange).end) - off(e.value.(*timeRange).start), ite(typeis(e.value, *duration), e.value.(*duration).minutes, ite(typeis(e.value, shouldTotal), e.value.(shouldTotal).Duration.(*duration).minutes, 0)))
-//@ spec ekind(e Entry) bool = typeis(e.value, *timeRange) || typeis(e.value, *duration) || typeis(e.value, *openRange) || typeis(e.value, shouldTotal)
+//@ spec edur(e Entry) int = ite(typeis(e.value, *timeRange), off(e.value.(*timeRange).end) - off(e.value.(*timeRange).start), ite(typeis(e.value, *duration), e.value.(*duration).minutes, 0))
+//@ spec ekind(e Entry) bool = typeis(e.value, *timeRange) || typeis(e.value, *duration) || typeis(e.value, *openRange)
 
 //@ func (*Entry).Duration
 //@ requires e != nil && ekind(*e) && fits(edur(*e))
@@ -279,7 +279,7 @@ package klog
 //@ ensures same(r.entries, es)
 
 //@ func (*record).AddDuration
-//@ requires nonnil(d)
+//@ requires typeis(d, *duration)
 //@ modifies r.entries
 //@ ensures len(r.entries) == old(len(r.entries)) + 1 && r.entries[len(r.entries)-1].value == d
 
